@@ -160,6 +160,19 @@ UNITS = [("TrackerCollection.handle", handle_unit), ("TrackerCollection.initiali
          ("controller.stop_paths", controller_stop_unit), ("lemma.composition_arithmetic", lemma_composition)]
 
 
+def _adaptive_units():
+    """clause 'exactly at the scheduled time for adaptive steppers': the controller hands the next scheduled time to the
+    stepper as t_end; the adaptive loops (python and numba, generic and Euler) end exactly at t_end -- the C06 loop
+    contracts, re-checked here because this property depends on them"""
+    from . import C06_adaptive
+
+    keep = ("adaptive.loop.python", "adaptive.loop.numba", "adaptive.euler_loop.python", "adaptive.euler_loop.numba")
+    return [(n, f) for n, f in C06_adaptive.UNITS if n in keep]
+
+
+UNITS += _adaptive_units()
+
+
 def bounded(tier, seed):
     from ..runner import native
 
@@ -172,4 +185,4 @@ def bounded(tier, seed):
 
 TRUSTED = ["tracker stubs: handle may raise, interrupt.next returns an arbitrary real (C09 contract not needed for the per-function clauses)"]
 ASSUMPTIONS = ["exact arithmetic; float boundary cases at exactly dt/2 are outside the model", "adaptive steppers (calls exactly at scheduled times) not covered"]
-NOT_COVERED = ["StorageTracker / MemoryStorage wiring (C20 and bounded check)", "full inductive composition with the served-set ghost state (arithmetic core proved, induction meta-level)"]
+NOT_COVERED = ["StorageTracker / MemoryStorage wiring (C20 and bounded check)", "adaptive steppers below dt_min (the loops raise; outside the real-number model)", "full inductive composition with the served-set ghost state (arithmetic core proved, induction meta-level)"]
